@@ -61,6 +61,31 @@ def comparison_operands(obj):
     return out
 
 
+def complex_origin(op, ctx):
+    """Type name of the node at which the imaginary part of `op` enters: walk down from `op` into a non-real
+    operand as long as there is one; the node reached is non-real although all its operands are real-valued
+    (or it is a terminal that is itself complex)."""
+    import numpy as np
+
+    def nonreal(n):
+        if n.ufl_free_indices:
+            return False
+        try:
+            vals = M.sem(n, ctx, {})
+        except Exception:  # noqa: BLE001
+            return False
+        arr = vals.reshape(-1) if isinstance(vals, np.ndarray) else [vals]
+        return not all(is_real(const_of(x), mpf("1e-20")) for x in arr)
+
+    n = op
+    for _ in range(1000):
+        nxt = next((c for c in n.ufl_operands if nonreal(c)), None)
+        if nxt is None:
+            return type(n).__name__
+        n = nxt
+    return "unknown"
+
+
 def has_type(obj, names):
     from ufl.corealg.traversal import unique_pre_traversal
 
@@ -108,10 +133,12 @@ def make_check(real_envs, complex_envs):
                         continue
                     part.inc("validated")
                     if not is_real(const_of(v), mpf("1e-20")):
+                        via = complex_origin(op, ctx)
                         part.violation(
-                            f"{PID}:complex-comparison-accepted:{key}",
-                            f"complex mode accepts {key} although the comparison operand {str(op)[:80]} is complex in some environment",
-                            dict(wit, operand=str(op)[:300], value=M.show(v), env=env.describe()),
+                            f"{PID}:complex-comparison-accepted:via-{via}:{key}",
+                            f"complex mode accepts {key} although the comparison operand {str(op)[:80]} is complex in some environment "
+                            f"(the imaginary part enters at a {via} node)",
+                            dict(wit, operand=str(op)[:300], value=M.show(v), env=env.describe(), complex_enters_at=via),
                         )
                         return "VIOLATION"
             ok &= P.check_pass("do_comparison_check", obj, accepted, real_envs, part, PID, key, wit)
